@@ -27,7 +27,7 @@ second round, `Cxx-5/6` = third round with a prompt that steers towards the less
 paths, presets and options) a fourth time (`Cxx-7/8`) and, for six properties, a fifth time (`Cxx-9/10`, prompt asking for the
 places a main-path checker is least likely to reach; that round produced mostly re-inventions, so
 only its new ideas were kept and the round was not extended; agents of later rounds sometimes re-invented an earlier idea, which is
-noted, and exact duplicates of the third round were not kept) and, for eight properties (C02, C05, C08, C09, C14, C15, C16, C19), a sixth time
+noted, and exact duplicates of the third round were not kept) and, for twelve properties (C02, C03, C05, C06, C07, C08, C09, C14, C15, C16, C18, C19), a sixth time
 (`Cxx-11/12`, each prompt naming the code area the earlier rounds had reached least: the low-rank estimator and transformation,
 event-only statistics, unusual fault points, CSV/Arrow corner values, flush points at chunk boundaries, nested settings enums).  Every change below was confirmed by
 me in a scratch worktree (`tools/seedtest.py confirm`: baseline suite with the patch 45/45,
@@ -41,8 +41,8 @@ All %d changes are caught by the quick tier as it stands (last sweep after the f
 strengthening).  %d of them were NOT caught - or only as a broken tie without a failing input, only
 statistically, or only by the check of a neighbouring property - by the checks as they were when the change was first run; every miss was a gap
 in a generator or an absent oracle/tie, never in a theorem, and was closed by extending the check
-(column "history").  The miss rate fell from round to round (15 of 38, 8 of 38, 5 of 30; the 17 new ideas of the fourth round had 6 misses, the 5 of the fifth round 2, the 16 of the sixth round 1
-as the checks stood when the round was run - C16-12 - and one more, C08-11, that the checks of the round before would have missed: the
+(column "history").  The miss rate fell from round to round (15 of 38, 8 of 38, 5 of 30; the 17 new ideas of the fourth round had 6 misses, the 5 of the fifth round 2, the 24 of the sixth round 2
+as the checks stood when the round was run - C16-12 and C03-12 - and one more, C08-11, that the checks of the round before would have missed: the
 direct-drive tie of the low-rank estimator that catches it was written while the agents were working).  The
 larger extensions that came out of this: the content tie of C09 (installed scales = bit-exact
 estimate over the model's foreground window), the chain-alone reference of C10, the mirror-rebuild
@@ -55,8 +55,8 @@ point; rounding-level energy ties; reference runs compared although scripted fau
 different chains; an ill-conditioned backward ESH step judged with a fixed tolerance).  "failing
 input" = the VIOLATION line carries a concrete replay on which the implementation breaks the
 property's text; "tie broken" = only the model/implementation correspondence failed (reported
-with `no-failing-input-found`).  C04's own check stays silent on C04-2/3/4/5, C01's on C01-6 and
-C08's on C08-7:
+with `no-failing-input-found`).  C04's own check stays silent on C04-2/3/4/5, C01's on C01-6,
+C08's on C08-7 and C07's on C07-11 (caught by C09, whose late-statistic clause it breaks):
 C04's claim is partial (the end-to-end statement is statistical) and those changes are caught by
 C02, whose statement they break directly.
 
